@@ -32,6 +32,7 @@ type Spec struct {
 	Comp  h.Comp `json:"comp"`
 	Msgs  []Msg  `json:"msgs"`
 	Saves []bool `json:"saves"` // WantSave before reading message i (cyclic)
+	Reuse bool   `json:"reuse,omitempty"` // read into one reused object per message type, as the patcher does
 }
 
 func body(m Msg, i int) []byte {
@@ -48,6 +49,8 @@ func build(m Msg, i int) proto.Message {
 	switch m.Kind {
 	case "data":
 		return &pwr.SyncOp{Type: pwr.SyncOp_DATA, Data: body(m, i)}
+	case "range0":
+		return &pwr.SyncOp{} // 0 bytes on the wire
 	case "range":
 		return &pwr.SyncOp{Type: pwr.SyncOp_BLOCK_RANGE, FileIndex: m.A, BlockIndex: m.B, BlockSpan: m.A + 1}
 	case "header":
@@ -106,6 +109,9 @@ func check(s Spec) h.Result {
 		case m.Size == 0:
 			cl = append(cl, "msg:empty-body")
 		}
+		if proto.Size(pm) == 0 {
+			cl = append(cl, "msg:zero-bytes-on-the-wire")
+		}
 	}
 	if err := cw.Close(); err != nil {
 		return h.Failf("closing the writer: %v", err)
@@ -136,6 +142,20 @@ func check(s Spec) h.Result {
 	if err != nil {
 		return h.Result{Fail: fmt.Sprintf("cannot open the stream that was just written: %v", err), Classes: cl}
 	}
+	// like the patcher, the reader reuses one message object per message type
+	// (ReadMessage is documented to deserialize *into* it): stale fields from
+	// the previous message must not survive
+	reuse := map[string]proto.Message{}
+	target := func(m Msg) proto.Message {
+		if !s.Reuse {
+			return empty(m)
+		}
+		k := fmt.Sprintf("%T", empty(m))
+		if reuse[k] == nil {
+			reuse[k] = empty(m)
+		}
+		return reuse[k]
+	}
 	for i := 0; ; i++ {
 		if len(s.Saves) > 0 && s.Saves[i%len(s.Saves)] {
 			r.WantSave()
@@ -162,7 +182,7 @@ func check(s Spec) h.Result {
 			}
 			break
 		}
-		m := empty(s.Msgs[i])
+		m := target(s.Msgs[i])
 		if err := r.ReadMessage(m); err != nil {
 			return h.Result{Fail: fmt.Sprintf("reading message %d of %d: %v", i, len(sent), err), Classes: cl}
 		}
@@ -191,7 +211,7 @@ func check(s Spec) h.Result {
 				}
 				break
 			}
-			m := empty(s.Msgs[i])
+			m := target(s.Msgs[i])
 			if err := r2.ReadMessage(m); err != nil {
 				return h.Result{Fail: fmt.Sprintf("resumed from the checkpoint popped before message %d: reading message %d of %d: %v", c.next, i, len(sent), err), Classes: cl}
 			}
@@ -272,8 +292,16 @@ var prop = h.Prop[Spec]{
 			}
 			m.A = int64(rapid.IntRange(0, 5000).Draw(t, "a"))
 			m.B = int64(rapid.IntRange(0, 5000).Draw(t, "b"))
+			if rapid.IntRange(0, 5).Draw(t, "all-default") == 0 {
+				// every field at its default: a message that serializes to 0 bytes
+				m.A, m.B, m.Size = 0, 0, 0
+				if m.Kind == "end" || m.Kind == "hash" {
+					m.Kind = "range0"
+				}
+			}
 			s.Msgs = append(s.Msgs, m)
 		}
+		s.Reuse = rapid.IntRange(0, 3).Draw(t, "reuse-objects") > 0
 		s.Saves = rapid.SliceOfN(rapid.Bool(), 1, 8).Draw(t, "saves")
 		if rapid.Bool().Draw(t, "always-save") {
 			s.Saves = []bool{true}
